@@ -66,20 +66,37 @@ Qed.
 Lemma flush_set_line : forall n (s : st),
   flush (set_line T V W n s) = match flush s with Ok s1 => Ok (set_line T V W n s1) | Err e w => Err e w end.
 Proof.
-  intros n [c h p rq rs d ln w]. unfold Lines.flush. cbn.
+  intros n [c h p cl cu d ln w]. unfold Lines.flush. cbn.
   destruct h.
-  - destruct rs; reflexivity.
+  - reflexivity.
   - destruct p as [[[a cf] k]|]; [|reflexivity].
-    destruct rs; cbn; destruct (commit_fails T V a cf _); reflexivity.
+    destruct (commit_fails T V a cf _); reflexivity.
 Qed.
 
-Lemma flush_idem : forall (s s1 : st), flush s = Ok s1 -> flush s1 = Ok s1.
+(* reachable states never hold a queued attribute while the header flag is up *)
+Definition good (s : st) : Prop := header T V W s = true -> pending T V W s = None.
+
+Lemma good_init : forall w, good (init T V W w).
+Proof. intros w _. reflexivity. Qed.
+
+Lemma flush_good : forall (s s1 : st), flush s = Ok s1 -> header T V W s1 = false.
 Proof.
-  intros [c h p rq rs d ln w] s1. unfold Lines.flush. cbn.
+  intros [c h p cl cu d ln w] s1. unfold Lines.flush. cbn.
   destruct h.
-  - destruct rs; cbn; intros E; inversion E; subst; cbn.
-    + destruct p as [[[a cf] k]|]; cbn. 2: reflexivity.
-      (* header with a pending attribute cannot occur from init, but flush is idempotent only without it *)
-      Abort.
+  - intros E; inversion E; reflexivity.
+  - destruct p as [[[a cf] k]|].
+    + destruct (commit_fails T V a cf _); intros E; inversion E; reflexivity.
+    + intros E; inversion E; reflexivity.
+Qed.
+
+Lemma flush_idem : forall (s s1 : st), good s -> flush s = Ok s1 -> flush s1 = Ok s1.
+Proof.
+  intros [c h p cl cu d ln w] s1 G. unfold good in G. cbn in G. unfold Lines.flush. cbn.
+  destruct h.
+  - rewrite (G eq_refl). intros E; inversion E; reflexivity.
+  - destruct p as [[[a cf] k]|].
+    + destruct (commit_fails T V a cf _); intros E; inversion E; reflexivity.
+    + intros E; inversion E; reflexivity.
+Qed.
 
 End Basics.
